@@ -369,10 +369,12 @@ fn main() {
             (_, true) => case2::<f32>(case, &args, ev, log),
         }
     });
-    let mut ev = ev;
-    if args.blocks() {
-        integer_lines(&mut ev);
-    }
+    let ev = ev;
+    // `integer_lines` is deliberately not run: C06 speaks of results "up to rounding", i.e. of
+    // floating-point element types; an implementation that is right for f64 / f32 (e.g. the
+    // t-form y1 + t*(y2-y1)) may truncate differently for integers, and the check must not
+    // alarm on it (the negative control `ctl-calc-frac-t-form` showed that it would)
+    let _ = integer_lines;
     ev.finish(
         &args,
         "Linear / CubicSpline (all non-periodic boundaries) / Bilinear with extrapolation on; finite \
